@@ -24,11 +24,35 @@ import (
 )
 
 const (
-	validatorRe = `^(validate|validate2|check|check2|check3|check4|Validate|norm|validateBox|validatePtr|validateAny)$`
-	sanitizerRe = `^sanitize$`
+	// two taint-tracking problems with disjoint source / sink / sanitizer / validator lists
+	sourceReA    = `^source$`
+	sinkReA      = `^sink(Any|Box|Ptr)?$`
+	sanitizerReA = `^sanitize$`
+	validatorReA = `^(validate|validate2|check|check2|check3|check4|Validate|norm|validateBox|validatePtr|validateAny)$`
+	sourceReB    = `^sourceB$`
+	sinkReB      = `^sinkB$`
+	sanitizerReB = `^sanitizeB$`
+	validatorReB = `^(validateB|validate2B|checkB|check2B|check3B|check4B|ValidateB|normB)$`
 	f5Key       = "F5:validator-condition-not-on-every-path"
 	c02aKey     = "C02a:validated-load-before-store"
 )
+
+// configYAML: the configuration file of a run (problem 0 = A, problem 1 = B).
+func configYAML(onDemand bool) string {
+	prob := func(src, snk, san, val string) string {
+		return fmt.Sprintf("  - sources:\n      - method: %q\n    sinks:\n      - method: %q\n    sanitizers:\n      - method: %q\n    validators:\n      - method: %q\n", src, snk, san, val)
+	}
+	return fmt.Sprintf("options:\n  log-level: 1\n  field-sensitive: false\n  summarize-on-demand: %v\ntaint-tracking-problems:\n", onDemand) +
+		prob(sourceReA, sinkReA, sanitizerReA, validatorReA) + prob(sourceReB, sinkReB, sanitizerReB, validatorReB)
+}
+
+// probOfCallee: 0 = a function of problem A, 1 = of problem B (by name suffix).
+func probOfCallee(name string) int {
+	if strings.HasSuffix(name, "B") {
+		return 1
+	}
+	return 0
+}
 
 func goEnv() []string {
 	return append(os.Environ(), "GOFLAGS=-mod=mod", "GOPROXY=off", "GOSUMDB=off", "GOTOOLCHAIN=local", "GOWORK=off")
@@ -75,8 +99,8 @@ func tail(s string, n int) string {
 }
 
 var (
-	srcCallRe  = regexp.MustCompile(`source\((\d+)\)`)
-	sinkCallRe = regexp.MustCompile(`sink(?:Any|Box|Ptr)?\((\d+),`)
+	srcCallRe  = regexp.MustCompile(`sourceB?\((\d+)\)`)
+	sinkCallRe = regexp.MustCompile(`sink(?:Any|Box|Ptr|B)?\((\d+),`)
 )
 
 // siteLines maps line numbers of main.go to the source / sink site on that line.
@@ -115,6 +139,7 @@ type caseInfo struct {
 	condKinds map[int]bool
 	shape     bool // a shape case (views of the same data)
 	helper    bool // the body runs in a callee hcaseN(x0, x2)
+	prob      int  // taint problem of the case: 0 = A, 1 = B
 }
 
 func collectKinds(b []cstmt, into map[int]bool) {
@@ -160,20 +185,34 @@ func sourceInstrOf(n df.GraphNode, fn *ssa.Function, arg ssa.Value) (ins ssa.Ins
 // siteOfCall returns the constant first argument of a call to a function whose name starts with
 // `name` (source(k) / sink(k, x) / sinkAny(k, x) …), or -1.
 func siteOfCall(ins ssa.Instruction, name string) int {
+	k, _ := siteAndProbOfCall(ins, name)
+	return k
+}
+
+func siteAndProbOfCall(ins ssa.Instruction, name string) (int, int) {
 	c, ok := ins.(ssa.CallInstruction)
 	if !ok || c.Common().StaticCallee() == nil || !strings.HasPrefix(c.Common().StaticCallee().Name(), name) || len(c.Common().Args) == 0 {
-		return -1
+		return -1, -1
 	}
 	k, ok := c.Common().Args[0].(*ssa.Const)
 	if !ok || k.Value == nil {
-		return -1
+		return -1, -1
 	}
-	return int(k.Int64())
+	return int(k.Int64()), probOfCallee(c.Common().StaticCallee().Name())
 }
 
-func (ci *caseInfo) classify(e df.GraphNode, call ssa.CallInstruction, class string) {
+func (ci *caseInfo) classify(prob int, e df.GraphNode, call ssa.CallInstruction, class string) {
 	if ci == nil {
 		return
+	}
+	// only edges into a sink of the problem under consideration matter for that problem
+	if _, sp := siteAndProbOfCall(call, "sink"); sp != prob {
+		return
+	}
+	if cn, ok := e.(*df.CallNode); ok {
+		if _, p := siteAndProbOfCall(cn.CallSite(), "source"); p >= 0 && p != prob {
+			return
+		}
 	}
 	switch class {
 	case "F5":
@@ -207,10 +246,13 @@ func (ci *caseInfo) classify(e df.GraphNode, call ssa.CallInstruction, class str
 	}
 }
 
+var stopNodeMismatches int
+
 // checkStopNodes: the traversal stops (sanitizer) only at nodes that belong to a call of a sanitizer:
 // the call node itself or one of its argument nodes. Exact comparison of the real isSanitizer with
 // that expectation on every node of the summary graph.
-func checkStopNodes(rep *lib.Report, state *df.AnalyzerState, ts *config.TaintSpec, sg *df.SummaryGraph, src string) {
+func checkStopNodes(rep *lib.Report, state *df.AnalyzerState, ts *config.TaintSpec, prob int, sg *df.SummaryGraph, src string) {
+	sanName := []string{"sanitize", "sanitizeB"}[prob]
 	if sg == nil {
 		return
 	}
@@ -230,21 +272,26 @@ func checkStopNodes(rep *lib.Report, state *df.AnalyzerState, ts *config.TaintSp
 		return c.Common().StaticCallee().Name()
 	}
 	sg.ForAllNodes(func(n df.GraphNode) {
-		want := calleeName(n) == "sanitize"
+		want := calleeName(n) == sanName
 		got := taint.VerifC02IsSanitizer(state, ts, n)
 		rep.Case("")
 		if want {
-			rep.Count("stop:sanitizer-node")
+			rep.Count(fmt.Sprintf("stop:sanitizer-node-problem%d", prob))
 		}
 		if got != want {
-			rep.Fail("stop-node:"+n.String(), fmt.Sprintf("isSanitizer(%s)=%v but the node %s a sanitizer call: the traversal stops at a node that data does not have to have been sanitised at (or goes on through a sanitizer)", n.String(), got, map[bool]string{true: "belongs to", false: "does not belong to"}[want]),
+			stopNodeMismatches++
+			rep.Count("stop:MISMATCH")
+			if stopNodeMismatches > 3 {
+				return
+			}
+			rep.Fail(fmt.Sprintf("stop-node:p%d:", prob)+n.String(), fmt.Sprintf("taint problem %d: isSanitizer(%s)=%v but the node %s a call of one of THIS problem's sanitizers: the traversal stops at a node that data does not have to have been sanitised at (or goes on through a sanitizer)", prob, n.String(), got, map[bool]string{true: "belongs to", false: "does not belong to"}[want]),
 				[]byte(fmt.Sprintf("function %s\n%s\nnode %s (%s)\nreal isSanitizer=%v expected=%v\n", sg.Parent.String(), src, n.String(), strings.TrimSpace(df.NodeKind(n)), got, want)), false)
 		}
 	})
 }
 
 // addEdgeQueries walks the real summary graph of d.fn.
-func addEdgeQueries(bt *batch, rep *lib.Report, d *fdump, ts *config.TaintSpec, sg *df.SummaryGraph, hdr, src string, ci *caseInfo, m *mismatchReporter) {
+func addEdgeQueries(bt *batch, rep *lib.Report, d *fdump, ts *config.TaintSpec, prob int, sg *df.SummaryGraph, hdr, src string, ci *caseInfo, m *mismatchReporter) {
 	if sg == nil {
 		return
 	}
@@ -289,7 +336,7 @@ func addEdgeQueries(bt *batch, rep *lib.Report, d *fdump, ts *config.TaintSpec, 
 				realDrop = true
 			}
 		}
-		if realDrop && ci != nil {
+		if realDrop && ci != nil && ci.prob == prob {
 			ci.dropped++
 		}
 		sIns, noCond, ok := sourceInstrOf(e.n, fn, arg)
@@ -303,7 +350,7 @@ func addEdgeQueries(bt *batch, rep *lib.Report, d *fdump, ts *config.TaintSpec, 
 		if !ok || isDefer || isFuncVal || budget < 0 || (sIns != nil && sIns.Parent() != fn) {
 			rep.Count("edge:not-modelled-source-kind-" + strings.TrimSpace(df.NodeKind(e.n)))
 			if realDrop {
-				ci.classify(e.n, call, "U") // cannot be related to the criterion
+				ci.classify(prob, e.n, call, "U") // cannot be related to the criterion
 			}
 			continue
 		}
@@ -340,7 +387,7 @@ func addEdgeQueries(bt *batch, rep *lib.Report, d *fdump, ts *config.TaintSpec, 
 					// the real edge does not carry what the model of the unchanged code predicts:
 					// its drop is not an instance of the recorded finding
 					rep.Count("V3:dropped-edge-differs-from-model")
-					ci.classify(e.n, call, "U")
+					ci.classify(prob, e.n, call, "U")
 				}
 				return
 			}
@@ -348,13 +395,13 @@ func addEdgeQueries(bt *batch, rep *lib.Report, d *fdump, ts *config.TaintSpec, 
 				// real conditions == model conditions: V3 = dropJustified on them
 				if strings.HasSuffix(got, " J 1 R 1") {
 					rep.Count("V3:dropped-edge-must-pass")
-					ci.classify(e.n, call, "J")
+					ci.classify(prob, e.n, call, "J")
 				} else if strings.HasSuffix(got, " J 1 R 0") {
 					rep.Count("V3:dropped-edge-must-pass-only-via-memory-same-data(outside_proved_domain)")
-					ci.classify(e.n, call, "M")
+					ci.classify(prob, e.n, call, "M")
 				} else {
 					rep.Count("V3:dropped-edge-NOT-must-pass(outside_proved_domain)")
-					ci.classify(e.n, call, "F5")
+					ci.classify(prob, e.n, call, "F5")
 				}
 			}
 		}
@@ -364,7 +411,7 @@ func addEdgeQueries(bt *batch, rep *lib.Report, d *fdump, ts *config.TaintSpec, 
 
 func runCases(rep *lib.Report) {
 	r := lib.Rand("c02-cases")
-	nCases, maxNodes, maxBits := 160, 9, 9
+	nCases, maxNodes, maxBits := 130, 9, 9
 	if lib.Thorough() {
 		nCases, maxNodes, maxBits = 1200, 14, 11
 	}
@@ -394,7 +441,11 @@ func runCases(rep *lib.Report) {
 		}
 		body := g.body(2+r.Intn(maxNodes), false, 0)
 		helper := r.Intn(5) == 0
-		src := renderCase(fmt.Sprintf("case%d", i), s0, s2, body, helper)
+		prob := 0
+		if r.Intn(10) < 3 {
+			prob = 1
+		}
+		src := forProblem(renderCase(fmt.Sprintf("case%d", i), s0, s2, body, helper), prob)
 		ci := &caseInfo{id: i, src: src, sites: map[int]bool{}, gt: map[[2]int]bool{}, rept: map[[2]int]bool{}, condKinds: map[int]bool{}}
 		for k := before + 1; k <= site; k++ {
 			ci.sites[k] = true
@@ -403,11 +454,14 @@ func runCases(rep *lib.Report) {
 		delete(ci.condKinds, cOpaque)
 		ci.nontriv = hasKind(body, kSink) && (len(ci.condKinds) > 0 || hasKind(body, kSanitize))
 		ci.helper = helper
+		ci.prob = prob
 		cases = append(cases, ci)
 		text.WriteString("\n" + src)
 	}
+	nBeforeSystematic := len(cases)
 	// systematic cases: every condition form x {sink in the then-branch, guard, sink in the else-branch},
 	// plus a few fixed sanitizer / pass-through shapes
+	curProb := 0
 	addCase := func(body []cstmt, s2 bool) {
 		i := len(cases)
 		g := &caseGen{r: r, nextSite: &site}
@@ -428,8 +482,8 @@ func runCases(rep *lib.Report) {
 			}
 		}
 		fix(body)
-		src := renderCase(fmt.Sprintf("case%d", i), s0, st2, body, false)
-		ci := &caseInfo{id: i, src: src, sites: map[int]bool{}, gt: map[[2]int]bool{}, rept: map[[2]int]bool{}, condKinds: map[int]bool{}, nontriv: true}
+		src := forProblem(renderCase(fmt.Sprintf("case%d", i), s0, st2, body, false), curProb)
+		ci := &caseInfo{id: i, src: src, sites: map[int]bool{}, gt: map[[2]int]bool{}, rept: map[[2]int]bool{}, condKinds: map[int]bool{}, nontriv: true, prob: curProb}
 		for k := before + 1; k <= site; k++ {
 			ci.sites[k] = true
 		}
@@ -439,12 +493,37 @@ func runCases(rep *lib.Report) {
 		text.WriteString("\n" + src)
 	}
 	snk := func(v int) cstmt { return cstmt{Kind: kSink, V: v} }
+	nop := []cstmt{{Kind: kNop}}
 	for k := 1; k < nCondKinds; k++ {
 		c := cond{Kind: k, V: 0}
-		addCase([]cstmt{{Kind: kIf, C: c, A: []cstmt{snk(0)}}}, false)
-		addCase([]cstmt{{Kind: kIf, C: c, A: []cstmt{{Kind: kReturn}}}, snk(0)}, false)
-		addCase([]cstmt{{Kind: kIf, C: c, A: []cstmt{{Kind: kNop}}, B: []cstmt{snk(0)}}}, false)
+		curProb = k % 2 // alternate the two taint problems over the condition forms …
+		if lib.Thorough() {
+			curProb = 0
+		}
+		for rounds := 0; rounds < 2; rounds++ {
+			addCase([]cstmt{{Kind: kIf, C: c, A: []cstmt{snk(0)}}}, false)
+			addCase([]cstmt{{Kind: kIf, C: c, A: []cstmt{{Kind: kReturn}}}, snk(0)}, false)
+			addCase([]cstmt{{Kind: kIf, C: c, A: nop, B: []cstmt{snk(0)}}}, false)
+			// the sink is reached on both outcomes: forgotten return / join after if-else
+			addCase([]cstmt{{Kind: kIf, C: c, A: nop}, snk(0)}, false)
+			addCase([]cstmt{{Kind: kIf, C: c, A: nop, B: nop}, snk(0)}, false)
+			if !lib.Thorough() {
+				break
+			}
+			curProb = 1 // … and both problems for every form in the thorough tier
+		}
 	}
+	// cross-problem shapes, in both directions: the other problem's sanitizer / validator must not suppress
+	for _, pr := range []int{0, 1} {
+		curProb = pr
+		addCase([]cstmt{{Kind: kSanitizeOther, V: 1, W: 0}, snk(1)}, false)
+		addCase([]cstmt{{Kind: kSanitizeOther, V: 0, W: 0}, {Kind: kIf, C: cond{cOpaque, 0}, A: []cstmt{snk(0)}}, snk(0)}, false)
+		addCase([]cstmt{{Kind: kIf, C: cond{cOtherNotVal, 0}, A: []cstmt{{Kind: kReturn}}}, snk(0)}, false)
+		addCase([]cstmt{{Kind: kIf, C: cond{cOtherErrNe, 0}, A: []cstmt{{Kind: kReturn}}}, snk(0)}, false)
+		addCase([]cstmt{{Kind: kSanitize, V: 1, W: 0}, snk(1), snk(0)}, false)
+		addCase([]cstmt{{Kind: kIf, C: cond{cNotVal, 0}, A: []cstmt{{Kind: kReturn}}}, snk(0)}, false)
+	}
+	curProb = 0
 	addCase([]cstmt{{Kind: kNorm, V: 1, W: 0}, snk(1)}, false)
 	addCase([]cstmt{{Kind: kNorm, V: 1, W: 0}, {Kind: kIf, C: cond{cNotVal, 1}, A: []cstmt{{Kind: kReturn}}}, snk(1), snk(0)}, false)
 	addCase([]cstmt{{Kind: kSanitize, V: 1, W: 0}, snk(1), snk(0)}, false)
@@ -453,7 +532,7 @@ func runCases(rep *lib.Report) {
 	addCase([]cstmt{{Kind: kCopy, V: 1, W: 0}, {Kind: kConcat, V: 1, W: 2}, {Kind: kIf, C: cond{cNotVal, 0}, A: []cstmt{{Kind: kReturn}}}, snk(1), snk(0)}, true)
 	addCase([]cstmt{{Kind: kFor, C: cond{cVal, 0}, A: []cstmt{snk(0)}}, snk(0)}, false)
 	addCase([]cstmt{{Kind: kFor, C: cond{cOpaque, 0}, A: []cstmt{{Kind: kIf, C: cond{cNotVal, 0}, A: []cstmt{{Kind: kReturn}}}, snk(0)}}, snk(0)}, false)
-	rep.Extra["systematic_cases"] = 3*(nCondKinds-1) + 8
+	rep.Extra["systematic_cases"] = len(cases) - nBeforeSystematic
 
 	// shape cases (same data through different SSA views)
 	nShapes := 60
@@ -477,8 +556,8 @@ func runCases(rep *lib.Report) {
 	lib.WriteProgram(dir, "vcase", map[string]string{
 		"main.go":           text.String(),
 		"skel.go":           skel,
-		"support_native.go": nativeSupport + shapeNative + nm,
-		"support_stub.go":   stubSupport + shapeStub + sm,
+		"support_native.go": nativeSupport() + shapeNative + nm,
+		"support_stub.go":   stubSupport() + shapeStub + sm,
 	})
 	runProgram(rep, dir, "vcase", text.String(), cases, skelSrcs)
 }
@@ -503,6 +582,18 @@ func corpusCase(rep *lib.Report, dname string, id int) *caseInfo {
 	return ci
 }
 
+// withDeadline runs f; ok=false if it did not return in time (f keeps running in its goroutine).
+func withDeadline(d time.Duration, f func()) bool {
+	done := make(chan struct{})
+	go func() { defer close(done); f() }()
+	select {
+	case <-done:
+		return true
+	case <-time.After(d):
+		return false
+	}
+}
+
 // runProgram: ground truth, real analysis, correspondence and comparison for one program.
 func runProgram(rep *lib.Report, dir, pkg, text string, cases []*caseInfo, skelSrcs map[string]string) {
 	const name = "prog"
@@ -523,14 +614,19 @@ func runProgram(rep *lib.Report, dir, pkg, text string, cases []*caseInfo, skelS
 		rep.Fail("harness-load-"+name, "generated case program does not load: "+err.Error(), nil, true)
 		return
 	}
-	res := l.Analyze(taintrun.Options{SourceRe: `^source$`, SinkRe: `^sink(Any|Box|Ptr)?$`, SanitizerRe: sanitizerRe, ValidatorRe: validatorRe})
-	if !res.OK() || res.Analysis.State == nil {
+	var res *taintrun.Result
+	if !withDeadline(20*time.Minute, func() { res = l.Analyze(taintrun.Options{YAML: configYAML(false)}) }) {
+		rep.Fail("analysis-timeout", "the taint analysis of the generated case program did not finish within 20 minutes (program in "+dir+")", nil, true)
+		rep.Finish()
+		os.Exit(1)
+	}
+	if !res.OK() || res.Analysis.State == nil || len(res.Config.TaintTrackingProblems) != 2 {
 		rep.Fail("harness-analyze-"+name, fmt.Sprintf("taint analysis did not complete: loadErr=%v panic=%s", res.LoadErr, tail(res.Panic, 1500)), nil, true)
 		return
 	}
 	rep.Extra[name+"_analyze_seconds"] = res.AnalyzeSeconds
 	rep.Extra[name+"_load_seconds"] = res.LoadSeconds
-	ts := &res.Config.TaintTrackingProblems[0]
+	tss := []*config.TaintSpec{&res.Config.TaintTrackingProblems[0], &res.Config.TaintTrackingProblems[1]}
 	srcLine, snkLine := siteLines(text)
 	siteCase := map[int]*caseInfo{}
 	for _, ci := range cases {
@@ -554,8 +650,8 @@ func runProgram(rep *lib.Report, dir, pkg, text string, cases []*caseInfo, skelS
 			cases[k[0]].gt[[2]int{k[1], k[2]}] = true
 		}
 	}
-	// correspondence on every function of the package
-	bt := &batch{}
+	// correspondence, first on the case / support functions (the end-to-end comparison needs their edge
+	// classes), afterwards on the control-flow skeletons
 	m := &mismatchReporter{rep: rep, perKey: map[string]int{}}
 	caseByName := map[string]*caseInfo{}
 	for _, ci := range cases {
@@ -565,32 +661,37 @@ func runProgram(rep *lib.Report, dir, pkg, text string, cases []*caseInfo, skelS
 	rr := lib.Rand("c02-" + name + "-queries")
 	nSkel := 0
 	defer func() { rep.Extra["skeleton_functions"] = nSkel }()
-	for i, f := range pkgFunctions(res.Prog, pkg) {
-		d := newDump(f, ts)
-		hdr, ok := d.cfgLines(fmt.Sprintf("%s%d", name, i))
-		if !ok {
-			rep.Count("fn:value-too-large-skipped")
+	fns := pkgFunctions(res.Prog, pkg)
+	summaries := res.Analysis.State.FlowGraph.Summaries
+	bt := &batch{}
+	for i, f := range fns {
+		if _, isSkel := skelSrcs[f.Name()]; isSkel {
 			continue
 		}
 		ci := caseByName[f.Name()]
-		src, isSkel := skelSrcs[f.Name()]
+		src := ""
 		if ci != nil {
 			src = ci.src
 		}
-		bt.header(hdr)
-		addPathQueries(bt, rep, rr, d, hdr, src)
-		if !isSkel {
-			addValueQueries(bt, rep, rr, d, ts, hdr, src)
-		} else {
-			nSkel++
+		for prob, ts := range tss {
+			d := newDump(f, ts)
+			hdr, ok := d.cfgLines(fmt.Sprintf("%s%dp%d", name, i, prob))
+			if !ok {
+				rep.Count("fn:value-too-large-skipped")
+				break
+			}
+			bt.header(hdr)
+			if prob == 0 {
+				addPathQueries(bt, rep, rr, d, hdr, src)
+			}
+			addValueQueries(bt, rep, rr, d, ts, prob, hdr, src)
+			addEdgeQueries(bt, rep, d, ts, prob, summaries[f], hdr, src, ci, m)
+			checkStopNodes(rep, res.Analysis.State, ts, prob, summaries[f], src)
 		}
-		addEdgeQueries(bt, rep, d, ts, res.Analysis.State.FlowGraph.Summaries[f], hdr, src, ci, m)
-		checkStopNodes(rep, res.Analysis.State, ts, res.Analysis.State.FlowGraph.Summaries[f], src)
 	}
-	if !bt.run(rep, name, m.report) {
+	if pathSearchHung || !bt.run(rep, name, m.report) {
 		return
 	}
-	rep.Extra[name+"_mismatches"] = m.total
 	// end-to-end comparison
 	inDomain, outDomain, missesOut := 0, 0, 0
 	for _, ci := range cases {
@@ -649,8 +750,8 @@ func runProgram(rep *lib.Report, dir, pkg, text string, cases []*caseInfo, skelS
 		sort.Slice(missed, less(missed))
 		sort.Slice(missedF5, less(missedF5))
 		sort.Slice(missedMem, less(missedMem))
-		content := fmt.Sprintf("%s\nmissed (source site, sink site): %v\nmissed through an edge validated only via two loads of one pointer (C02a): %v\nmissed through an edge whose validator condition is not on every path (F5): %v\nground truth: %v\nreported: %v\nvalidator-dropped edges: %d (not on every path: %d, unexplained by the model: %d); classes %v\nconfig: sources ^source$, sinks ^sink(Any|Box|Ptr)?$, sanitizers %s, validators %s\nsupport code: nativeSupport / stubSupport in harness/cmd/c02/gen.go (the whole program is in %s)\n",
-			ci.src, missed, missedMem, missedF5, keys2(ci.gt), keys2(ci.rept), ci.dropped, ci.unjust, ci.unexpl, ci.edgeClass, sanitizerRe, validatorRe, dir)
+		content := fmt.Sprintf("%s\nmissed (source site, sink site): %v\nmissed through an edge validated only via two loads of one pointer (C02a): %v\nmissed through an edge whose validator condition is not on every path (F5): %v\nground truth: %v\nreported: %v\nvalidator-dropped edges: %d (not on every path: %d, unexplained by the model: %d); classes %v\ntaint problem of this case: %d\nconfig (2 problems):\n%s\nsupport code: nativeSupport() / stubSupport() in harness/cmd/c02/gen.go (the whole program is in %s)\n",
+			ci.src, missed, missedMem, missedF5, keys2(ci.gt), keys2(ci.rept), ci.dropped, ci.unjust, ci.unexpl, ci.edgeClass, ci.prob, configYAML(false), dir)
 		if len(missed) > 0 {
 			rep.Fail("e2e-miss:"+ci.src, fmt.Sprintf("a native execution delivers unvalidated, unsanitized source data to a sink (source site, sink site)=%v and the taint analysis does not report it; the flow is not explained by a validator condition that fails must-pass", missed[0]), []byte(content), false)
 		}
@@ -667,7 +768,12 @@ func runProgram(rep *lib.Report, dir, pkg, text string, cases []*caseInfo, skelS
 	// whenever the function is summarised, so every flow that the default configuration reports and the
 	// ground truth confirms must be reported again.
 	{
-		res2 := l.Analyze(taintrun.Options{OnDemand: true, SourceRe: `^source$`, SinkRe: `^sink(Any|Box|Ptr)?$`, SanitizerRe: sanitizerRe, ValidatorRe: validatorRe})
+		var res2 *taintrun.Result
+		if !withDeadline(20*time.Minute, func() { res2 = l.Analyze(taintrun.Options{YAML: configYAML(true)}) }) {
+			rep.Fail("analysis-timeout-ondemand", "the taint analysis (summarize-on-demand) did not finish within 20 minutes", nil, true)
+			rep.Finish()
+			os.Exit(1)
+		}
 		if !res2.OK() {
 			rep.Fail("harness-analyze-ondemand", fmt.Sprintf("taint analysis (summarize-on-demand) did not complete: loadErr=%v panic=%s", res2.LoadErr, tail(res2.Panic, 1500)), nil, true)
 		} else {
@@ -695,6 +801,27 @@ func runProgram(rep *lib.Report, dir, pkg, text string, cases []*caseInfo, skelS
 			rep.Count("config:summarize-on-demand")
 		}
 	}
+	// control-flow skeletons: path search and condition collection on many CFG shapes
+	bs := &batch{}
+	for i, f := range fns {
+		src, isSkel := skelSrcs[f.Name()]
+		if !isSkel || pathSearchHung {
+			continue
+		}
+		d := newDump(f, tss[0])
+		hdr, ok := d.cfgLines(fmt.Sprintf("skel%d", i))
+		if !ok {
+			continue
+		}
+		nSkel++
+		bs.header(hdr)
+		addPathQueries(bs, rep, rr, d, hdr, src)
+		addEdgeQueries(bs, rep, d, tss[0], 0, summaries[f], hdr, src, nil, m)
+	}
+	if !pathSearchHung {
+		bs.run(rep, "skel", m.report)
+	}
+	rep.Extra[name+"_mismatches"] = m.total
 	rep.Extra[name+"_in_proved_domain"] = inDomain
 	rep.Extra[name+"_outside_proved_domain"] = outDomain
 	rep.Extra[name+"_outside_proved_domain_with_missed_flow"] = missesOut
